@@ -284,22 +284,59 @@ def strides(facts, res):
         res.violation(R, tbf.rel(facts.path_of(g[0])), g[0]["qname"], "round-up", g[0]["l"][1], "GetLeadingDim is `%s`, not the round-up of sizeof(DataType)*count to the alignment (%s)" % (t, want))
 
 
+def block_ref(facts, cls, n, depth=0):
+    """(block member, 'ptr' | 'size') an expression hands out, following the class's own one-line accessors"""
+    n = strip(n)
+    if n is None or depth > 3 or n.get("k") not in ("CXXMemberCallExpr", "CallExpr"):
+        return None
+    nm = tbf.callee_name(n)
+    b = tbf.call_base(n)
+    if nm in ("getPtr", "getAllocatedMemorySizeInByte") and b is not None:
+        bb = strip(b)
+        if bb.get("k") in ("MemberExpr", "CXXDependentScopeMemberExpr") and bb.get("name"):
+            return (bb["name"], "ptr" if nm == "getPtr" else "size")
+        return None
+    if b is None or strip(b).get("k") == "CXXThisExpr" or n.get("k") == "CallExpr" or (strip(b).get("k") in ("MemberExpr",) and False):
+        ms = [m for m in facts.methods_of(cls) if m["name"] == nm and tbf.body(m) is not None and not m["params"]]
+        got = set()
+        for m in ms:
+            rs = [r for r in walk(tbf.body(m)) if r.get("k") == "ReturnStmt" and kids(r)]
+            if len(rs) != 1:
+                return None
+            got.add(block_ref(facts, cls, kids(rs[0])[0], depth + 1))
+        if len(got) == 1:
+            return next(iter(got))
+    return None
+
+
 def slot_of_field(facts, cls):
-    """block member -> slot index in getDataPtrsAndSizes (non-const overload)"""
+    """block member -> slot index in getDataPtrsAndSizes (all overloads must agree)"""
     fns = [f for f in facts.methods_of(cls) if f["name"] == "getDataPtrsAndSizes"]
     if not fns:
         raise AnalysisBroken("%s::getDataPtrsAndSizes not found" % cls)
     out = {}
     for fn in fns:
         order = []
-        for x in walk(tbf.body(fn)):
-            if x.get("k") in ("CXXMemberCallExpr", "CallExpr") and tbf.callee_name(x) in ("getPtr", "getAllocatedMemorySizeInByte"):
-                b = tbf.call_base(x)
-                order.append((strip(b).get("name"), tbf.callee_name(x), x["l"][1], x.get("b", 0)))
+
+        def rec(x):
+            if x is None or not isinstance(x, dict):
+                return
+            if x.get("k") in ("CXXMemberCallExpr", "CallExpr"):
+                r = block_ref(facts, cls, x)
+                if r is not None:
+                    order.append((r[0], r[1], x["l"][1], x.get("b", 0)))
+                    return
+            for c in x.get("c", []) or []:
+                rec(c)
+        rec(tbf.body(fn))
         order.sort(key=lambda t: (t[2], t[3]))
-        pairs = [(order[i][0], order[i + 1][0]) for i in range(0, len(order) - 1, 2)]
+        if len(order) < 2 or len(order) % 2:
+            raise AnalysisBroken("%s: %d pointer / size expressions recognised" % (fn["qname"], len(order)))
         seq = []
-        for a, b in pairs:
+        for i in range(0, len(order), 2):
+            (a, ka, _l, _b), (b, kb, _l2, _b2) = order[i], order[i + 1]
+            if (ka, kb) != ("ptr", "size"):
+                return None, "entry %d of %s is (%s of %s, %s of %s), not (pointer, size)" % (i // 2, fn["qname"], ka, a, kb, b), fn
             if a != b:
                 return None, "pointer of %s paired with size of %s in %s" % (a, b, fn["qname"]), fn
             seq.append(a)
@@ -346,14 +383,19 @@ def buffer_order(facts, res, tier):
         acc = {}
         for m in facts.methods_of(cls):
             mm = re.match(r"^get(\w+?)(Ptr|Size)$", m["name"])
-            if not mm or m["name"] == "getDataPtrsAndSizes":
+            if not mm or m["name"] == "getDataPtrsAndSizes" or tbf.body(m) is None:
                 continue
-            flds = set(x["name"] for x in walk(tbf.body(m)) if x.get("k") == "MemberExpr" and x.get("name") in seq)
-            acc.setdefault(mm.group(1), {}).setdefault(mm.group(2), set()).update(flds)
+            rs = [r for r in walk(tbf.body(m)) if r.get("k") == "ReturnStmt" and kids(r)]
+            ref = block_ref(facts, cls, kids(rs[0])[0]) if len(rs) == 1 else None
+            acc.setdefault(mm.group(1), {}).setdefault(mm.group(2), set()).add(ref)
         for name, d in sorted(acc.items()):
-            res.instance(R, "%s::get%s{Ptr,Size}" % (cls, name), facts.loc(fn), "%s" % {k: sorted(v) for k, v in d.items()})
-            if d.get("Ptr") != d.get("Size") or len(d.get("Ptr", ())) != 1:
-                res.violation(R, f, "%s::get%sPtr" % (cls, name), "accessor-pair:" + name, fn["l"][1], "get%sPtr and get%sSize do not describe the same single block: %s" % (name, name, {k: sorted(v) for k, v in d.items()}))
+            res.instance(R, "%s::get%s{Ptr,Size}" % (cls, name), facts.loc(fn), "%s" % {k: sorted(map(str, v)) for k, v in d.items()})
+            p_, s_ = d.get("Ptr", set()), d.get("Size", set())
+            if None in p_ or None in s_ or len(p_) != 1 or len(s_) != 1:
+                raise AnalysisBroken("%s::get%s{Ptr,Size}: accessor bodies not recognised (%s)" % (cls, name, d))
+            (pb, pk), (sb, sk) = next(iter(p_)), next(iter(s_))
+            if pb != sb or pk != "ptr" or sk != "size":
+                res.violation(R, f, "%s::get%sPtr" % (cls, name), "accessor-pair:" + name, fn["l"][1], "get%sPtr hands out the %s of %s, get%sSize the %s of %s: not pointer and size of one block" % (name, pk, pb, name, sk, sb))
     if tier == "thorough":
         sf = tbf.scan("starpu")
         res.units.append("umbrella TU 'starpu' (declaration stub): TbfStarPUHandleBuilder(Tsm)")
